@@ -163,7 +163,35 @@ def build(r, name, derives, n=None, styles=True, allow_default=True, allow_disab
         if model.overlaps(spec):
             rv.to_string = "raw-fallback-name"
     assert not model.overlaps(spec)
+    gen.maybe_macro_wrap(r, spec)
     return spec
+
+
+def add_overlap(r, spec):
+    """Add a variant whose spelling is a case variant of an existing one, at least one of the two being case-insensitive.
+    Inputs claimed by both are not judged (spec.overlap); inputs claimed by exactly one of them still are."""
+    cands = [v for v in spec.variants if not v.disabled and not v.default and any(any(c.isascii() and c.isalpha() for c in s) for s in model.spellings(v, spec.serialize_all))]
+    if not cands:
+        return False
+    a = r.choice(cands)
+    base = r.choice([s for s in model.spellings(a, spec.serialize_all) if any(c.isascii() and c.isalpha() for c in s)])
+    alt = r.choice([base.swapcase(), base.upper(), base.lower(), base.capitalize()])
+    if alt == base:
+        alt = base.swapcase()
+    if alt == base:
+        return False
+    a_ci = model.effective_ci(a, spec.aci)
+    if not a_ci and r.random() < 0.3:
+        alt = base          # the very same spelling on a later/earlier case-insensitive variant
+    b = Variant(ident="Overlap%s" % spec.name, serialize=[alt])
+    b.aci = True if not a_ci else r.choice([True, False, None])
+    if not (a_ci or model.effective_ci(b, spec.aci)):
+        b.aci = True
+    pos = spec.variants.index(a)
+    spec.variants.insert(pos if r.random() < 0.5 else pos + 1, b)
+    spec.overlap = True
+    spec.tags.append("overlap")
+    return True
 
 
 def default_with_fns(spec):
